@@ -22,7 +22,7 @@ ASSUMPTIONS = [
     "the reference model adopts the id the implementation returns and only requires it to be fresh",
 ]
 RULE = {
-    "quick": "BFS over all operation histories of depth<=4 (menu of ~40 operations per state, incl. merging three partner networks, one of them with two consecutive generator-pattern ids) on the real CRNHyperGraph; "
+    "quick": "BFS over all operation histories of depth<=4 (menu of ~40 operations per state, incl. merging three partner networks, one of them with two consecutive generator-pattern ids, and attaching a molecule label under a name that may be a live reaction id) on the real CRNHyperGraph; "
     "state = canonical snapshot; non-trivial = transition that reached a new state",
     "thorough": "as quick with depth<=5 (depth 6 on the sub-alphabet without merge/copy/assign_mol with VERIF_C15_DEPTH6=1), plus a second live "
     "network that is merged and then edited (aliasing)",
